@@ -47,6 +47,7 @@ var goSrcFuncs = []string{
 	"Iter.Float", "Iter.FloatFlags", "Iter.Int", "Iter.Uint",
 	"Array.ForEach", "Array.DeleteElems", "Array.FirstType", "Object.ForEach", "Object.DeleteElems",
 	"isValidTrueAtom", "isValidFalseAtom", "isValidNullAtom", "parseNumber",
+	"Iter.MarshalJSONBuffer",
 }
 
 type goBlock struct {
@@ -103,6 +104,12 @@ type lconstV struct {
 }
 
 type gsTr struct {
+	pre      []string         // statements hoisted out of the expression being translated (calls with a result)
+	lazy     int              // > 0 while translating the right operand of && / ||: nothing may be hoisted from there
+	ntemp    int
+	curSwLabel string         // label of the switch statement about to be translated
+	swLabels map[string]bool  // labels of switch statements
+	loopLabels map[string]bool
 	shadowed []string         // names the current block has redefined over an enclosing scope's variable
 	lconst map[string]lconstV // constants declared in the function
 	poison map[string]bool   // outer variables whose slot an inner scope has reused (shadowing): not to be read again
@@ -493,6 +500,26 @@ func (t *gsTr) expr(e ast.Expr, want gty) (string, gty) {
 			return a, to // same value on the Lean side: a float64 is carried as its bits
 		}
 		if id, ok := x.Fun.(*ast.Ident); ok && id.Name == "append" && len(x.Args) == 2 && x.Ellipsis.IsValid() {
+			// append(make([]T, 0, n), y...) is a copy of y
+			if mk, ok := x.Args[0].(*ast.CallExpr); ok && len(mk.Args) == 3 && nows(src(mk.Fun)) == "make" && nows(src(mk.Args[1])) == "0" {
+				return t.expr(x.Args[1], tyBytes)
+			}
+		}
+		if id, ok := x.Fun.(*ast.Ident); ok && id.Name == "append" && len(x.Args) >= 2 && !x.Ellipsis.IsValid() {
+			a, aty := t.expr(x.Args[0], tyBytes)
+			if aty != tyBytes {
+				gsDie(e, "append operands")
+			}
+			for _, el := range x.Args[1:] {
+				b, bty := t.expr(el, tyU8)
+				if bty != tyU8 {
+					gsDie(e, "appended element type")
+				}
+				a = fmt.Sprintf("(.pushB %s %s)", a, b)
+			}
+			return a, tyBytes
+		}
+		if id, ok := x.Fun.(*ast.Ident); ok && id.Name == "append" && len(x.Args) == 2 && x.Ellipsis.IsValid() {
 			a, aty := t.expr(x.Args[0], tyBytes)
 			b, bty := t.expr(x.Args[1], tyBytes)
 			if aty != tyBytes || bty != tyBytes {
@@ -554,6 +581,19 @@ func (t *gsTr) expr(e ast.Expr, want gty) (string, gty) {
 				gsDie(e, "Uint64 operand")
 			}
 			return fmt.Sprintf("(.le64 %s)", a), tyU64
+		}
+		if _, isSel := x.Fun.(*ast.SelectorExpr); isSel {
+			if pk, ok := x.Fun.(*ast.SelectorExpr).X.(*ast.Ident); !ok || (pk.Name != "errors" && pk.Name != "fmt" && pk.Name != "math" && pk.Name != "binary" && pk.Name != "strconv" && pk.Name != "bytes") {
+				if recv, callee, ptrs, args, rtys, ok := t.methodCall(x); ok && len(rtys) == 1 {
+					if t.lazy > 0 {
+						gsDie(e, "call under the right operand of && or ||")
+					}
+					t.ntemp++
+					tmp := fmt.Sprintf("#c%d", t.ntemp)
+					t.pre = append(t.pre, fmt.Sprintf(".callAssign [%s] %s %s %s [%s]", strconv.Quote(tmp), strconv.Quote(recv), strconv.Quote(callee), leanStrList(ptrs), strings.Join(args, ", ")))
+					return fmt.Sprintf("(.v %s)", strconv.Quote(tmp)), rtys[0]
+				}
+			}
 		}
 		if sel, ok := x.Fun.(*ast.SelectorExpr); ok {
 			if pk, ok := sel.X.(*ast.Ident); ok && ((pk.Name == "errors" && sel.Sel.Name == "New") || (pk.Name == "fmt" && sel.Sel.Name == "Errorf")) {
@@ -650,6 +690,16 @@ func (t *gsTr) exprMaybe(e ast.Expr) (string, gty) {
 	return "", tyUnk
 }
 
+// takePre returns (and clears) the statements hoisted while translating an expression, as a prefix for the statement
+func (t *gsTr) takePre(ind string) string {
+	if len(t.pre) == 0 {
+		return ""
+	}
+	p := strings.Join(t.pre, ",\n"+ind) + ",\n" + ind
+	t.pre = nil
+	return p
+}
+
 func tyName(t gty) string {
 	switch t {
 	case tyInt:
@@ -723,7 +773,9 @@ func (t *gsTr) binary(x *ast.BinaryExpr, want gty) (string, gty) {
 	switch x.Op {
 	case token.LAND, token.LOR:
 		a, at := t.expr(x.X, tyBool)
+		t.lazy++
 		b, bt := t.expr(x.Y, tyBool)
+		t.lazy--
 		if at != tyBool || bt != tyBool {
 			gsDie(x, "logical operand")
 		}
@@ -1002,9 +1054,12 @@ func (t *gsTr) block(list []ast.Stmt, ind string) string {
 	}
 	prevOuter := t.outer
 	prevShadowed := t.shadowed
+	prevPre := t.pre // hoisted statements of the enclosing statement's own expressions stay with it
+	t.pre = nil
 	t.outer = saved
 	t.shadowed = nil
 	defer func() {
+		t.pre = prevPre
 		t.locals = map[string]gty{}
 		for k, v := range saved {
 			t.locals[k] = v
@@ -1026,7 +1081,23 @@ func (t *gsTr) block(list []ast.Stmt, ind string) string {
 }
 
 func (t *gsTr) stmt(s ast.Stmt, ind string) string {
+	out := t.stmt0(s, ind)
+	return t.takePre(ind) + out
+}
+
+func (t *gsTr) stmt0(s ast.Stmt, ind string) string {
 	switch x := s.(type) {
+	case *ast.LabeledStmt:
+		switch in := x.Stmt.(type) {
+		case *ast.ForStmt:
+			t.loopLabels[x.Label.Name] = true
+			return t.stmt0(in, ind)
+		case *ast.SwitchStmt:
+			t.swLabels[x.Label.Name] = true
+			t.curSwLabel = x.Label.Name
+			return t.stmt0(in, ind)
+		}
+		gsDie(s, "labelled statement")
 	case *ast.AssignStmt:
 		if x.Tok == token.DEFINE && len(x.Lhs) == 1 && len(x.Rhs) == 1 {
 			if id, ok := x.Lhs[0].(*ast.Ident); ok {
@@ -1035,13 +1106,54 @@ func (t *gsTr) stmt(s ast.Stmt, ind string) string {
 				}
 			}
 		}
+		// dst = escapeBytes(dst, sb) | strconv.AppendInt(dst, v, 10) | strconv.AppendUint(dst, v, 10); dst, err = appendFloat(dst, v)
+		if x.Tok == token.ASSIGN && len(x.Rhs) == 1 {
+			if call, ok := x.Rhs[0].(*ast.CallExpr); ok {
+				f := nows(src(call.Fun))
+				name := map[string]string{"escapeBytes": "escapeBytes", "strconv.AppendInt": "AppendInt", "strconv.AppendUint": "AppendUint", "appendFloat": "appendFloat"}[f]
+				nargs := 2
+				if name == "AppendInt" || name == "AppendUint" {
+					if len(call.Args) != 3 || nows(src(call.Args[2])) != "10" {
+						gsDie(s, "base of the integer formatting")
+					}
+				} else if name != "" && len(call.Args) != 2 {
+					gsDie(s, "library call arity")
+				}
+				if name != "" {
+					var args []string
+					for _, a := range call.Args[:nargs] {
+						e, ty := t.expr(a, tyUnk)
+						if ty != tyBytes && ty != tyInt && ty != tyU64 && ty != tyF64 {
+							gsDie(a, "library call argument")
+						}
+						args = append(args, e)
+					}
+					var targets []string
+					for _, l := range x.Lhs {
+						n, _ := t.lvalue(l)
+						targets = append(targets, n)
+					}
+					if name == "appendFloat" {
+						if len(targets) != 2 {
+							gsDie(s, "appendFloat results")
+						}
+						targets = append(targets, targets[1]+".range")
+					} else if len(targets) != 1 {
+						gsDie(s, "library call results")
+					}
+					return fmt.Sprintf(".extAssign %s %s [%s]", leanStrList(targets), strconv.Quote(name), strings.Join(args, ", "))
+				}
+			}
+		}
 		// v, err := strconv.ParseInt(s, 10, 64) | ParseUint(s, 10, 64) | ParseFloat(s, 64): modelled library functions
 		if x.Tok == token.DEFINE && len(x.Lhs) == 2 && len(x.Rhs) == 1 {
 			if call, ok := x.Rhs[0].(*ast.CallExpr); ok {
 				f := nows(src(call.Fun))
 				var rest string
-				for _, a := range call.Args[1:] {
-					rest += nows(src(a)) + ","
+				for k, a := range call.Args {
+					if k > 0 {
+						rest += nows(src(a)) + ","
+					}
 				}
 				lib := map[string]struct {
 					name string
@@ -1273,6 +1385,8 @@ func (t *gsTr) stmt(s ast.Stmt, ind string) string {
 			gsDie(s, "switch shape")
 		}
 		tag, tty := t.expr(x.Tag, tyUnk)
+		swLabel := t.curSwLabel
+		t.curSwLabel = ""
 		var cases []string
 		dflt := "[]"
 		for _, cc := range x.Body.List {
@@ -1286,8 +1400,8 @@ func (t *gsTr) stmt(s ast.Stmt, ind string) string {
 					if _, ok := n.(*ast.ForStmt); ok {
 						return false
 					}
-					if br, ok := n.(*ast.BranchStmt); ok && br.Tok == token.BREAK {
-						gsDie(br, "break inside switch")
+					if br, ok := n.(*ast.BranchStmt); ok && br.Tok == token.BREAK && br.Label == nil {
+						gsDie(br, "unlabelled break inside switch")
 					}
 					return true
 				})
@@ -1307,16 +1421,27 @@ func (t *gsTr) stmt(s ast.Stmt, ind string) string {
 			}
 			cases = append(cases, fmt.Sprintf("([%s], %s)", strings.Join(labels, ", "), body))
 		}
+		if swLabel != "" {
+			return fmt.Sprintf(".switchL %s %s [\n%s    %s]\n%s    %s", strconv.Quote(swLabel), tag, ind, strings.Join(cases, ",\n"+ind+"    "), ind, dflt)
+		}
 		return fmt.Sprintf(".switch %s [\n%s    %s]\n%s    %s", tag, ind, strings.Join(cases, ",\n"+ind+"    "), ind, dflt)
 	case *ast.DeclStmt:
 		gd, ok := x.Decl.(*ast.GenDecl)
 		if ok && gd.Tok == token.CONST {
-			for _, sp := range gd.Specs {
+			var lastVal ast.Expr
+			for k, sp := range gd.Specs {
 				vs := sp.(*ast.ValueSpec)
-				if len(vs.Names) != 1 || len(vs.Values) != 1 {
+				if len(vs.Names) != 1 || len(vs.Values) > 1 {
 					gsDie(s, "constant declaration shape")
 				}
-				val := vs.Values[0]
+				if len(vs.Values) == 1 {
+					lastVal = vs.Values[0]
+				}
+				if lastVal == nil {
+					gsDie(s, "constant without a value")
+				}
+				val := lastVal
+				_ = k
 				ty := tyUntyped
 				if vs.Type != nil {
 					ty = tyOfTypeExpr(vs.Type)
@@ -1328,7 +1453,7 @@ func (t *gsTr) stmt(s ast.Stmt, ind string) string {
 				if ty == tyUnk {
 					gsDie(s, "constant type")
 				}
-				t.lconst[vs.Names[0].Name] = lconstV{val: t.p.eval(val, 0).String(), ty: ty}
+				t.lconst[vs.Names[0].Name] = lconstV{val: t.p.eval(val, k).String(), ty: ty}
 			}
 			return ".ite (.bool true) [] [] /- " + strings.ReplaceAll(stmtText(s), "-/", "- /") + " -/"
 		}
@@ -1340,7 +1465,12 @@ func (t *gsTr) stmt(s ast.Stmt, ind string) string {
 			gsDie(s, "declaration shape")
 		}
 		ty := tyOfTypeExpr(vs.Type)
-		zero := map[gty]string{tyInt: "(.int 0)", tyU64: "(.u64 0)", tyU8: "(.u8 0)", tyBool: "(.bool false)"}[ty]
+		zero := map[gty]string{tyInt: "(.int 0)", tyU64: "(.u64 0)", tyU8: "(.u8 0)", tyBool: "(.bool false)", tyBytes: ".nilB"}[ty]
+		if at, ok := vs.Type.(*ast.ArrayType); ok && at.Len != nil {
+			if el, ok := at.Elt.(*ast.Ident); ok && (el.Name == "uint8" || el.Name == "byte") {
+				ty, zero = tyBytes, fmt.Sprintf("(.zerosB %s)", t.p.eval(at.Len, 0).String()) // a byte array used through slices of it
+			}
+		}
 		if zero == "" {
 			gsDie(s, "declared type")
 		}
@@ -1394,6 +1524,12 @@ func (t *gsTr) stmt(s ast.Stmt, ind string) string {
 		return fmt.Sprintf(".while %s %s", c, body)
 	case *ast.BranchStmt:
 		if x.Label != nil {
+			switch {
+			case x.Tok == token.BREAK && t.swLabels[x.Label.Name]:
+				return fmt.Sprintf(".brkL %s", strconv.Quote(x.Label.Name))
+			case x.Tok == token.BREAK && t.loopLabels[x.Label.Name] && len(t.loopLabels) == 1:
+				return ".brk /- " + x.Label.Name + " -/" // the only loop of the function: `break` reaches it through any switch
+			}
 			gsDie(s, "labelled branch")
 		}
 		switch x.Tok {
@@ -1535,7 +1671,7 @@ func genGoSrc(p *pkgInfo, out string) {
 			die("gosrc: function %s not found", fn)
 		}
 		t := &gsTr{p: p, fn: fn, iters: map[string]bool{}, locals: map[string]gty{}, kinds: map[string]string{},
-			lconst: map[string]lconstV{}, poison: map[string]bool{}}
+			lconst: map[string]lconstV{}, poison: map[string]bool{}, swLabels: map[string]bool{}, loopLabels: map[string]bool{}}
 		t.iterFieldTypes()
 		t.frees = map[string]gty{}
 		rkind := "Iter"
@@ -1625,7 +1761,7 @@ func genGoSrc(p *pkgInfo, out string) {
 			die("gosrc: function %s not found", bs.fn)
 		}
 		t := &gsTr{p: p, fn: bs.fn, iters: map[string]bool{}, locals: map[string]gty{}, tapes: bs.tapes, frees: bs.frees, rtys: bs.rtys,
-			kinds: map[string]string{}, lconst: map[string]lconstV{}, poison: map[string]bool{}}
+			kinds: map[string]string{}, lconst: map[string]lconstV{}, poison: map[string]bool{}, swLabels: map[string]bool{}, loopLabels: map[string]bool{}}
 		t.iterFieldTypes()
 		for n, ty := range bs.locals {
 			t.locals[n] = ty
